@@ -125,6 +125,8 @@ package lossy
 //@   requires enc != nil && 1 <= enc.width && enc.width <= 16383 && 1 <= enc.height && enc.height <= 16383
 //@   requires 1 <= enc.numParts && enc.numParts <= 8
 //@   modifies *
+//@   loop 1: invariant 0 <= i && i <= 8
+//@   loop 1: invariant forall j int in 0..7 :: j < i && j < len(tokenParts)-1 ==> len(tokenParts[j]) < 1<<24
 //
 // Assumed summaries of the entropy-coding back ends (outside reach): they do
 // not touch the picture dimensions; the number of token partitions is numParts.
